@@ -718,9 +718,30 @@ def install(reg):
     over("reversed", lambda I, v, a, k: b_reversed(I, v) if is_reflist(v) else NotImplemented)
     over("enumerate", lambda I, v, a, k: TheoryObj("reflist_enum", fields={"rl": v, "start": k.get("start", a[1] if len(a) > 1 else 0)}) if is_reflist(v) else NotImplemented)
     isbag = lambda v: isinstance(v, TheoryObj) and v.theory == "intbag"
-    over("max", lambda I, v, a, k: b_max(I, v, k) if is_reflist(v) and len(a) == 1 else (bag_minmax(I, v, True, k) if isbag(v) and len(a) == 1 else NotImplemented))
-    over("min", lambda I, v, a, k: bag_minmax(I, v, False, k) if isbag(v) and len(a) == 1 else NotImplemented)
     isgen = lambda v: isinstance(v, TheoryObj) and v.theory == "reflist_gen"
+
+    def gen_as_bag(I, gen):
+        """max/min over a generator expression = over the list it would produce (the bag of its values)"""
+        rl, node, env, _g = _gen_parts(I, gen)
+        bag = comprehension(I, "list", node, rl, env)
+        return bag if isbag(bag) else None
+
+    def minmax(is_max):
+        def fn(I, v, a, k):
+            if len(a) != 1:
+                return NotImplemented
+            if is_max and is_reflist(v):
+                return b_max(I, v, k)
+            if isbag(v):
+                return bag_minmax(I, v, is_max, k)
+            if isgen(v):
+                bag = gen_as_bag(I, v)
+                if bag is not None:
+                    return bag_minmax(I, bag, is_max, k)
+            return NotImplemented
+        return fn
+    over("max", minmax(True))
+    over("min", minmax(False))
     over("next", lambda I, v, a, k: b_next(I, v, a[1] if len(a) > 1 else None, len(a) > 1) if isgen(v) else NotImplemented)
     over("all", lambda I, v, a, k: b_all_any(I, v, False) if isgen(v) else NotImplemented)
     over("any", lambda I, v, a, k: b_all_any(I, v, True) if isgen(v) else NotImplemented)
